@@ -10,6 +10,7 @@
 //	s l     -> sorted(l), sorted(sorted(l)) by a script
 //	U l     -> set built from the items of l: members, len, truthiness, membership of every item
 //	Y v     -> IsTruthy and Len
+//	H c u op... / h c u op...  -> a history on one container object, see history.go
 package main
 
 import (
@@ -612,6 +613,20 @@ func main() {
 		}
 		p := &parser{toks: strings.Fields(line)}
 		kind, _ := p.next()
+		if kind == "H" || kind == "h" {
+			c, err1 := p.parseValue()
+			var u object.Object
+			var err2 error
+			if err1 == nil {
+				u, err2 = p.parseValue()
+			}
+			if err1 != nil || err2 != nil {
+				fmt.Fprintln(out, "BADCASE history values")
+				continue
+			}
+			fmt.Fprintln(out, historyObs(kind, c, u, p.toks[p.pos:]))
+			continue
+		}
 		var vals []object.Object
 		bad := false
 		for p.pos < len(p.toks) {
